@@ -12,9 +12,11 @@ T="${1:-all}"; RUNS="${2:-200000}"; SEED="${3:-${VERIF_SEED:-0}}"
 # libFuzzer treats -seed=0 as "random": remap
 LSEED=$(( (SEED % 2147483000) + 1 ))
 TD=/verif/target/fuzz
-mkdir -p /verif/work /verif/replays/C08
+mkdir -p /verif/work /verif/replays/C08 /verif/replays/C07
 cd /verif/harness || exit 2
 if [ "$T" = all ]; then TARGETS="parse_op parse_schema pipeline structured config"; else TARGETS="$T"; fi
+PROP="${VH_FUZZ_PROPERTY:-C08}"
+mkdir -p "/verif/replays/$PROP"
 LOG=/verif/work/fuzz-build.$$.log
 if ! cargo +nightly fuzz build -O --fuzz-dir fuzz --target-dir "$TD" >"$LOG" 2>&1; then
   echo "FUZZ-BUILD-FAILED (see below)"; tail -30 "$LOG"; rm -f "$LOG"; exit 2
@@ -27,7 +29,9 @@ for t in $TARGETS; do
   (
     C=/verif/work/fuzz-corpus-$t-$$; rm -rf "$C"; mkdir -p "$C"
     [ -d fuzz/seeds/$t ] && cp fuzz/seeds/$t/* "$C"/ 2>/dev/null
-    A=/verif/replays/C08/fuzz-$t-
+    # parse_diff starts from the seeds of both parser targets
+    if [ "$t" = parse_diff ] || [ "$t" = print_roundtrip ]; then cp fuzz/seeds/parse_op/* fuzz/seeds/parse_schema/* "$C"/ 2>/dev/null; fi
+    A=/verif/replays/$PROP/fuzz-$t-
     # fixed work per target, scaled by its speed (structured: ~150 exec/s, pipeline: ~1.5k, parsers: ~6k)
     case $t in structured) R=$((RUNS/20));; pipeline) R=$((RUNS/4));; *) R=$RUNS;; esac
     "$BIN/$t" "$C" -runs="$R" -seed="$LSEED" -len_control=0 -max_len=8192 -timeout=30 -rss_limit_mb=4096 -detect_leaks=0 \
@@ -44,13 +48,13 @@ for t in $TARGETS; do
         # reproduce in a fresh process, strict mode (no known-finding tolerance is needed: tolerated
         # failures never abort)
         if "$BIN/$t" "$art" -timeout=30 >/dev/null 2>&1; then
-          echo "INCONCLUSIVE property=C08 fuzz artifact did not reproduce: $art"; echo 2 > /verif/work/fuzz-rc-$t-$$
+          echo "INCONCLUSIVE property=$PROP fuzz artifact did not reproduce: $art"; echo 2 > /verif/work/fuzz-rc-$t-$$
         else
           echo "  failure[fuzz-$t] $(grep -m1 FUZZ-FAILURE /verif/work/fuzz-$t-$$.log | cut -c1-300)"
-          echo "VIOLATION property=C08 replay=$art"; echo 1 > /verif/work/fuzz-rc-$t-$$
+          echo "VIOLATION property=$PROP replay=$art"; echo 1 > /verif/work/fuzz-rc-$t-$$
         fi
       else
-        echo "INCONCLUSIVE property=C08 libFuzzer exited with $code without an artifact (target $t)"; echo 2 > /verif/work/fuzz-rc-$t-$$
+        echo "INCONCLUSIVE property=$PROP libFuzzer exited with $code without an artifact (target $t)"; echo 2 > /verif/work/fuzz-rc-$t-$$
       fi
     fi
     rm -rf "$C" /verif/work/fuzz-$t-$$.log
